@@ -132,7 +132,7 @@ Definition field_val (c : claim) (f : string) : fval :=
   else if String.eqb k "amt" then VAmt (c_amt c f)
   else VNone.
 
-Definition hashed_fields (ct : string) : list string := map snd (G.hash_items ct).
+Definition hashed_fields (ct : string) : list string := map item_field (format ct).
 Definition hashed_vals (c : claim) : list fval := map (item_val c) (format (c_type c)).
 
 (** Fields the property exempts: the voter's identity, transaction metadata, and the event nonce
@@ -183,6 +183,7 @@ Definition type_ok (ct : string) : bool :=
   && negb (Nat.eqb (List.length (format ct)) 0)
   && String.eqb (kind_of ct (chain_field ct)) "str" && String.eqb (kind_of ct (nonce_field ct)) "num"
   && String.eqb (kind_of ct "EthBlockHeight") "num"
+  && Nat.eqb (List.length (G.key_fields ct)) 2 && mem (nonce_field ct) (hashed_fields ct)
   && forallb (fun f => mem f (hashed_fields ct) || mem f (G.key_fields ct) || mem f excluded) (G.handler_fields ct).
 
 Definition lengths_distinct : bool :=
